@@ -144,6 +144,20 @@ func genC14Case(r *rand.Rand) C14Case {
 		live["dc"], live["dd"] = true, false
 		tags["dsmgmt"], tags["rename"], tags["several-ops-per-process-lifetime"] = true, true, true
 	}
+	if r.Intn(4) == 0 && !live["dc"] && !live["dd"] {
+		// directed opening: the newest dataset is deleted, the hub restarts, the next dataset is created and written
+		c.Ops = append(c.Ops, C14Op{Kind: "create", DS: "dc"}, C14Op{Kind: "batch", DS: "dc", Ents: []model.Ent{gen.Entity(r, v, v.IDs[0]), gen.Entity(r, v, v.IDs[1])}},
+			C14Op{Kind: "delete", DS: "dc"}, C14Op{Kind: "create", DS: "dd"}, C14Op{Kind: "batch", DS: "dd", Ents: []model.Ent{gen.Entity(r, v, v.IDs[2])}})
+		live["dc"], live["dd"] = false, true
+		tags["dsmgmt"], tags["restart-after-deleting-newest-dataset"] = true, true
+	}
+	if r.Intn(4) == 0 {
+		// directed opening: the only access-control entry of the hub is taken away again
+		c.Ops = append(c.Ops, C14Op{Kind: "regclient", Client: "client0"}, C14Op{Kind: "setacl", Client: "client0", ACL: []string{"/datasets/da|read|false"}},
+			C14Op{Kind: "delacl", Client: "client0"})
+		clients["client0"] = true
+		tags["security"], tags["last-acl-removed"] = true, true
+	}
 	if r.Intn(4) == 0 {
 		// directed opening: a job runs (sync state stored), is deleted and defined again under the same id
 		c.Ops = append(c.Ops, C14Op{Kind: "batch", DS: "da", Ents: []model.Ent{gen.Entity(r, v, v.IDs[0]), gen.Entity(r, v, v.IDs[1])}},
@@ -265,8 +279,9 @@ func genC14Case(r *rand.Rand) C14Case {
 			tags["providers"] = true
 		}
 	}
+	several := r.Intn(2) == 0 // (the other histories keep a stop/start after every single operation)
 	for i := range c.Ops {
-		if i+1 < len(c.Ops) && r.Intn(3) == 0 {
+		if several && i+1 < len(c.Ops) && r.Intn(3) == 0 {
 			c.Ops[i].NoRestart = true
 			tags["several-ops-per-process-lifetime"] = true
 		}
